@@ -102,6 +102,7 @@ FUNCS = [
 ]
 
 LISTED = set(f[1] for f in FUNCS)
+FUNC_INDEX = {f[1]: i for i, f in enumerate(FUNCS)}
 # records whose pointer members are kept (as identities); elsewhere pointer members are left out of the structure
 PTR_FIELD_RECORDS = {"struct key_entry", "struct spki_record"}
 
@@ -675,6 +676,8 @@ class Fn:
         self.done_wrap = False                # inside a stepwise loop body: results are `.done r`
         self.aux = []             # auxiliary definitions (loops), in dependency order
         self.memlocals = set(opts.get("memlocals", []))
+        self.pages = set()        # offsets above C.STACK of this function's own memory objects
+        self.callee_pages = set() # ... and of the translated functions it calls (must be disjoint from its own)
         self.nloops = 0
         self.params = []          # (cname, Ty, mode)  mode in scalar/value/inout/mem
         self.vars = {}            # cname -> {"ty": Ty, "mode": ...}
@@ -1515,6 +1518,7 @@ class Fn:
         if name not in self.translated:
             return self.emit_inline(n, env, k)
         callee = self.translated[name]
+        self.root.callee_pages |= callee.pages | callee.callee_pages
         args = n["inner"][1:]
         texts, gs, writebacks = [], [], []
         if callee.uses_world:
@@ -1772,11 +1776,15 @@ class Fn:
                     if nv.ty.kind != "int":
                         bad("size of the variable-length array is not an integer", d)
                     self.root.nstack = getattr(self.root, "nstack", 0) + 1
-                    base = "(C.STACK + %d)" % (1048576 * self.root.nstack)
+                    # every translated function has pages of its own (a caller may hand a pointer into its page to a translated
+                    # callee, whose own objects must lie elsewhere): page number = 4 * (position of the function in FUNCS) + k
+                    page = 1048576 * (4 * FUNC_INDEX.get(self.root.name, 0) + self.root.nstack)
+                    self.root.pages.add(page)
+                    base = "(C.STACK + %d)" % page
                     cnt = str(nv.const) if nv.const is not None else dot(nv.text, "toNat")
                     et = Ty("int", 8, False)
                     self.vars[name] = {"ty": Ty("ptr", elem=Ty("array", elem=et, n=0)), "mode": "memobj", "base": base,
-                                       "objty": Ty("array", elem=et, n=0), "bound": "(C.STACK + %d + %s)" % (1048576 * self.root.nstack, cnt)}
+                                       "objty": Ty("array", elem=et, n=0), "bound": "(C.STACK + %d + %s)" % (page, cnt)}
                     # the array must fit into its page and have a positive size (a zero-length VLA is undefined)
                     return self.guarded(nv.guards + ["(decide (0 < %s ∧ %s ≤ 1048576))" % (cnt, cnt)], go(j + 1, env))
                 if self.uses_mem and name in self.root.memlocals and ty.kind in ("struct", "array"):
@@ -1784,6 +1792,7 @@ class Fn:
                     if [c for c in d.get("inner", []) if "kind" in c and not c["kind"].endswith("Attr")]:
                         bad("initialiser of an object that lives in memory", d)
                     self.root.nstack = getattr(self.root, "nstack", 0) + 1
+                    self.root.pages.add(4096 * self.root.nstack)
                     base = "(C.STACK + %d)" % (4096 * self.root.nstack)
                     size = PROBE.size(self.tu.rel, d["type"].get("desugaredQualType") or d["type"]["qualType"])
                     self.vars[name] = {"ty": Ty("ptr", elem=ty), "mode": "memobj", "base": base, "objty": ty,
@@ -2273,6 +2282,8 @@ class Fn:
             if st.get("kind") == "LabelStmt":
                 self.labels[st.get("declId")] = (top, i, top_ctx)
         txt = self.stmt(body, env, top_ctx)
+        if self.pages & self.callee_pages:
+            bad("the memory objects of '%s' and of a translated callee would share a page" % self.name)
         if "__UNINIT__" in txt:
             pass
         head = "def %s %s : Option (%s) :=" % (self.name, self.sig(), self.result_type())
